@@ -808,6 +808,40 @@ def object_produce_specs():
     return out
 
 
+def legacy_spec():
+    """legacy_CPF_0x0001.produce with both address forms present (numeric sin_addr and textual ip_address)"""
+    def data(eng, name, st):
+        st = st.clone()
+        rid = eng.new_id()
+        ip = SeqV(z3.Const('_g_ip', IntSeq), 'str')
+        j = z3.Int('ipj')
+        st.pc.append(z3.ForAll([j], z3.Implies(z3.And(0 <= j, j < z3.Length(ip.t)), z3.And(ip.t[j] >= 0, ip.t[j] < 128))))
+        flds = {'version': (z3.Bool('_g_version_given'), IntV(z3.Int('_g_version'))), 'unknown_1': (z3.Bool('_g_unknown_given'), IntV(z3.Int('_g_unknown'))),
+                'sin_family': (z3.BoolVal(True), IntV(z3.Int('_g_family'))), 'sin_port': (z3.BoolVal(True), IntV(z3.Int('_g_port'))),
+                'sin_addr': (z3.BoolVal(True), IntV(z3.Int('_g_addr'))), 'ip_address': (z3.BoolVal(True), ip)}
+        for k, pv in flds.items():
+            st.heap[(rid, k)] = pv
+        st.heap[(rid, '__closed__')] = True
+        st.heap[(rid, '__keys__')] = tuple(flds)
+        for g in ('_g_version', '_g_unknown', '_g_family', '_g_port', '_g_addr'):
+            eng.init_vals[g] = IntV(z3.Int(g))
+        for g in ('_g_version_given', '_g_unknown_given'):
+            eng.init_vals[g] = BoolV(z3.Bool(g))
+        eng.init_vals['_g_ip'] = SeqV(ip.t, 'bytes')
+        eng.tracked_refs.add(rid)
+        return RefV(rid, 'rec'), st
+    return Spec('legacy_CPF_0x0001.produce[sin_addr and ip_address]', (P, 'legacy_CPF_0x0001.produce'), params={'data': data},
+                requires='0 <= _g_version <= 0xffff and 0 <= _g_unknown <= 0xffff and -32768 <= _g_family <= 32767 and 0 <= _g_port <= 0xffff and '
+                         '0 <= _g_addr <= 0xffffffff and len(_g_ip) <= 255',
+                ensures=[('layout: version, unknown, family and port in network order, the BINARY address from sin_addr, 8 zero bytes, the TEXT address in 16 bytes',
+                          'result == u16(_g_version if _g_version_given else 1) + u16(_g_unknown if _g_unknown_given else 0) + be(_g_family, 2) + be(_g_port, 2) '
+                          '+ be(_g_addr, 4) + bytes_of(0, 0, 0, 0, 0, 0, 0, 0) + (_g_ip[:16] if len(_g_ip) >= 16 else _g_ip + zeros(16 - len(_g_ip)))'),
+                         ('size', 'len(result) == 36')],
+                raises={}, modifies=[], inline=['produce'], hints=dict(funcs=WS.FUNCS),
+                note='the branch taken when both address forms are in the record (a numeric sin_addr is encoded as it is, not derived from the text); '
+                     'textual sin_addr (ipaddress module) and the missing-ip_address branch (runs the IPADDR parser) are bounded-only')
+
+
 
 D = "server/enip/defaults.py"
 NCP_SMALL = "(redundant << 15) + (type << 13) + (priority << 10) + (variable << 9) + size"
@@ -1043,4 +1077,4 @@ def typed_data_specs():
 
 def contracts(repo):
     return (scalar_specs() + string_specs() + [enip_encode_spec()] + logix_produce_specs() + unconnected_send_specs() + connection_specs()
-            + epath_specs() + [status_spec()] + typed_data_specs() + encapsulation_specs() + cpf_specs() + connection_manager_specs() + object_produce_specs())
+            + epath_specs() + [status_spec()] + typed_data_specs() + encapsulation_specs() + cpf_specs() + connection_manager_specs() + object_produce_specs() + [legacy_spec()])
